@@ -25,8 +25,12 @@ BATCH_BYTES = 60000
 # implementation access
 
 def impl_parse(data, path):
+    """the decoder's lines; an exception that escapes it is a result of its own (never what the model or the specification say)"""
     from io_drawer.trace import parse_trace_data
-    return parse_trace_data(memoryview(bytes(data)), path)
+    try:
+        return parse_trace_data(memoryview(bytes(data)), path)
+    except Exception as e:  # noqa: BLE001
+        return ["<parse_trace_data raised %s: %s>" % (type(e).__name__, str(e)[:200])]
 
 
 def impl_table(path):
